@@ -35,6 +35,8 @@ for name in sorted(os.listdir(os.path.join(HERE, "seeded"))):
             verdict = ("caught with replay on the real code" if viol and "no-failing-input-found" not in viol[0]
                        else "caught (broken correspondence, no failing input found)" if viol else "MISSED")
             outs.append(f"{p} seed {seed}: {verdict}" + (f" [{m.group(1)} disagreements, {m.group(2)} falsifier hits]" if m else ""))
+        if meta.get("neutralised"):
+            outs = ["(no longer property-breaking: " + meta["neutralised"][:160] + "…) " + o for o in outs]
         rows.append((name, pid, "<br>".join(outs), meta["summary"]))
     finally:
         subprocess.run(["git", "-C", "/repo", "checkout", "--", "."])
